@@ -192,6 +192,28 @@ def main():
         py.append(" ".join("(%d,%d,%d)" % p for (k, p) in log if k == "B"))
         h.case(("serial",) + c.key() if len(ops) >= 2 and (c.acc is not None or c.apex) else None)
         h.count("mode", "serial")
+    # ---- a fixed history: a filtered walk that accepts tile (1,0,0) and none of its children (so it is dead, with every child
+    # pre-readied), then the full depth-3 pyramid in the same process, several schedules
+    for hi in range(8 if h.deep else 4):
+        first = pyrgen.PyrCase(3, "t", {(1, 0, 0), (1, 1, 0), (2, 2, 0), (3, 4, 0), (3, 5, 1)})
+        # the second walk: the whole pyramid, or just the sub-pyramid below the tile that was dead in the first walk (its four
+        # children are then the only seeds, so a parent released too early is picked up while its siblings still run)
+        second = pyrgen.PyrCase(3, "g") if hi % 2 else pyrgen.PyrCase(3, "g", None, (1, 0, 0))
+        try:
+            sim1, log1 = walk_sim(first, 2, simmp.RandomChooser(rng.randrange(2 ** 31), timeout_weight=0.05))
+            bad1 = judge_log(first, log1, sim1.outcome == "ok", sim1.outcome)
+            par2 = rng.choice([3, 4])
+            # schedules that park a worker inside its callback (right after it began) while everything else goes on
+            sim2, log2 = walk_sim(second, par2, simmp.DelayAfterChooser(rng.randrange(2 ** 31), kinds=("cb-begin",), prob=rng.choice([0.3, 0.6]), max_sleep=rng.choice([30, 80])))
+            bad2 = judge_log(second, log2, sim2.outcome == "ok", sim2.outcome)
+        except Exception as e:
+            h.violation("parallel:history", f"walking [{first.line()}] and then [{second.line()}] in one process raised {type(e).__name__}: {e}", input={"first": first.line(), "second": second.line()})
+            continue
+        h.case(("history-fixed", hi, tuple(sim2.choices)))
+        h.count("mode", "sim-after-dead-tile")
+        if bad1 or bad2:
+            h.violation("parallel:history", f"walk of [{first.line()}] (2 workers) and then of the full pyramid [{second.line()}] ({par2} workers) in one process: {'first walk: ' + bad1 if bad1 else 'second walk: ' + bad2}",
+                        input={"first": first.line(), "second": second.line(), "workers": par2, "choices": sim2.choices[:600], "trace": sim2.trace[:150]}, observed=bad1 or bad2)
     # ---- simulated parallel walks
     nsim = 500 if h.deep else 130
     pool = [c for c in cases if c.spec()[2]]
@@ -210,6 +232,9 @@ def main():
             # priority-based schedules: a process stays suspended at one point while the others run long stretches
             tw = "pct"
             chooser = simmp.PCTChooser(rng.randrange(2 ** 31), depth=rng.choice([1, 2, 3, 4]), timeout_prob=rng.choice([0.3, 0.7]))
+        elif si % 8 == 3:
+            tw = "delay-after-" + rng.choice(["cb-begin", "put"])
+            chooser = simmp.DelayAfterChooser(rng.randrange(2 ** 31), kinds=(tw[len("delay-after-"):],), prob=rng.choice([0.3, 0.6]), max_sleep=rng.choice([30, 80]))
         else:
             chooser = simmp.RandomChooser(rng.randrange(2 ** 31), timeout_weight=tw, feeder_weight=rng.choice([1.0, 0.2]))
         sim, log = walk_sim(c, par, chooser)
@@ -239,6 +264,20 @@ def main():
             h.traces += 1
         if si < 2:
             h.sample({"pyramid": c.line(), "workers": par, "trace": sim.trace[:30]})
+        # history: right after a walk of a pyramid with a dead accepted tile, the same process walks the FULL pyramid of that depth
+        # (a fresh Pyramid object) — nothing the first walk left behind (readiness entries that were never released) may be seen
+        if getattr(c, "tag", None) == "gap" and si % 2 == 0:
+            c2 = pyrgen.PyrCase(c.depth, "g")
+            par2 = rng.choice([3, 4])
+            ch2 = simmp.PCTChooser(rng.randrange(2 ** 31), depth=rng.choice([1, 2, 3]), timeout_prob=0.3) if si % 4 == 0 else simmp.RandomChooser(rng.randrange(2 ** 31), timeout_weight=0.05)
+            sim2, log2 = walk_sim(c2, par2, ch2)
+            what2 = sim2.outcome + (f": {type(sim2.main.exc).__name__}: {sim2.main.exc}" if sim2.main.exc is not None else "")
+            bad2 = judge_log(c2, log2, sim2.outcome == "ok", what2)
+            h.case(("history", c.key(), c2.key(), tuple(sim2.choices)))
+            h.count("mode", "sim-after-gap")
+            if bad2:
+                h.violation("parallel:history", f"walk of the full pyramid [{c2.line()}] with {par2} workers, in a process that had just walked [{c.line()}]: {bad2}",
+                            input={"first": c.line(), "second": c2.line(), "workers": par2, "choices": sim2.choices[:600], "trace": sim2.trace[:150]}, observed=bad2)
     # ---- prologue: the model's totals and seeds against the real counters
     for c in pool[:40]:
         lines.append("walk pro " + c.line())
